@@ -26,11 +26,59 @@ pub const MAX_DIGITS_ARG: u64 = 10_000;
 pub const MAX_BITS: u64 = 1 << 15;
 pub const MAX_FACTORIZE_SCORE: i64 = 6;
 
+/// does the text contain a literal exponent above 5000 (any `e`/`E` followed by such digits)?
+pub fn has_huge_exponent(text: &str) -> bool {
+    // in whole files only an `e` that follows a digit can start an exponent
+    // (unit names such as `scale60000` must not count)
+    let chars: Vec<char> = text.chars().collect();
+    let mut i = 1;
+    while i < chars.len() {
+        if (chars[i] == 'e' || chars[i] == 'E') && (chars[i - 1].is_ascii_digit() || chars[i - 1] == '.') {
+            // the literal must not be part of a longer identifier: walk back over digits and dots
+            let mut j = i - 1;
+            while j > 0 && (chars[j - 1].is_ascii_digit() || chars[j - 1] == '.' || chars[j - 1] == '_') {
+                j -= 1;
+            }
+            let starts_ident = j > 0 && (chars[j - 1].is_alphanumeric() || chars[j - 1] == '_');
+            if !starts_ident {
+                let mut k = i + 1;
+                if k < chars.len() && (chars[k] == 'e' || chars[k] == 'E') {
+                    k += 1;
+                }
+                if k < chars.len() && (chars[k] == '+' || chars[k] == '-') {
+                    k += 1;
+                }
+                let mut v: u64 = 0;
+                let mut digits = 0;
+                while k < chars.len() && (chars[k].is_ascii_digit() || chars[k] == '_' || chars[k] == '\u{2009}') {
+                    if let Some(d) = chars[k].to_digit(10) {
+                        v = v.saturating_mul(10).saturating_add(d as u64);
+                        digits += 1;
+                    }
+                    k += 1;
+                }
+                if digits > 0 && v > MAX_EXP_DIGITS_VALUE {
+                    return true;
+                }
+            }
+        }
+        i += 1;
+    }
+    false
+}
+
 fn text_scan(line: &str) -> Cost {
     let chars: Vec<char> = line.chars().collect();
     if chars.len() > MAX_CHARS {
         return Cost::Expensive("longer than 500 characters (outside the property's domain)");
     }
+    if let Cost::Expensive(w) = scan_exponents(&chars) {
+        return Cost::Expensive(w);
+    }
+    scan_digits_keyword(line)
+}
+
+fn scan_exponents(chars: &[char]) -> Cost {
     let n = chars.len();
     let mut i = 0;
     while i < n {
@@ -58,6 +106,10 @@ fn text_scan(line: &str) -> Cost {
         }
         i += 1;
     }
+    Cost::Cheap
+}
+
+fn scan_digits_keyword(line: &str) -> Cost {
     // `digits N`
     let lower = line.to_lowercase();
     let mut from = 0;
